@@ -70,6 +70,7 @@ def run(ctx):
     ctx.cov["memory_programs_with_out_of_bounds_returndatacopy_halt"] = mstats["rdoob"]
     ctx.cov["memory_programs_calling_a_precompile"] = mstats["precompile"]
     ctx.cov["memory_programs_with_create_or_create2"] = mstats["creates"]
+    ctx.cov["memory_programs_matching_only_code_only_collision_variant"] = mstats.get("known_c2", 0)
     ctx.cov["word_vectors"] = summary.get("vectors", 0)
     ctx.cov["word_vectors_per_instruction"] = summary.get("perOp", {})
     ctx.cov["programs_replayed_on_real_evm"] = stats["replayed"]
